@@ -28,7 +28,7 @@ OPS = ['create', 'create_key_pair', 'register', 'get', 'get_wrapped', 'get_attri
 def pick_uid(rng, objs, kinds=None, p_missing=0.08, p_none=0.04, p_any=0.25):
     x = rng.random()
     if x < p_missing:
-        return rng.choice(('99999', 'no-such-id', '0', '-1', '1e3', ' 1'))
+        return rng.choice(('99999', 'no-such-id', '0', '-1', '1e3', ' 1', 'n' * 249, 'q' * 300, 'long-' * 400))
     if x < p_missing + p_none:
         return None
     pool = objs
@@ -143,10 +143,40 @@ def rand_cparams(rng, rich=True):
     return cparams(**kw)
 
 
+def rand_wrapping(rng):
+    """Key wrapping data of a key that is registered already wrapped: a random subset of its fields."""
+    from kmip.core import objects as cobjects
+    kw = {'wrapping_method': rng.choice(list(E.WrappingMethod))}
+    fields = rng.sample(['eki', 'mski', 'mac', 'iv', 'enc'], rng.randrange(0, 6))
+    cp = lambda: rng.choice((None, rig.cparams(block_cipher_mode=rng.choice(list(E.BlockCipherMode)[:14])),
+                             rig.cparams(hashing_algorithm=E.HashingAlgorithm.SHA_256)))
+    if 'eki' in fields:
+        kw['encryption_key_information'] = cobjects.EncryptionKeyInformation(
+            unique_identifier=rng.choice(('1', '0', 'wrap-key')), cryptographic_parameters=cp())
+    if 'mski' in fields:
+        kw['mac_signature_key_information'] = cobjects.MACSignatureKeyInformation(
+            unique_identifier=rng.choice(('2', '77')), cryptographic_parameters=cp())
+    if 'mac' in fields:
+        kw['mac_signature'] = rng.choice((b'\x00', b'\x01\x02\x03', rand_bytes(rng, 16)))
+    if 'iv' in fields:
+        kw['iv_counter_nonce'] = rng.choice((b'\x00', b'\x00' * 8, rand_bytes(rng, 16)))
+    if 'enc' in fields:
+        kw['encoding_option'] = rng.choice(list(E.EncodingOption))
+    return cobjects.KeyWrappingData(**kw)
+
+
 def rand_secret(rng, kind):
     from kv.gen import store
     n = rng.choice((0, 1, 7, 8, 16, 24, 32, 33))
     value = rand_bytes(rng, n)
+    if kind in ('sym', 'pub', 'priv') and rng.random() < 0.2:
+        # registered already wrapped by the client
+        w = rand_wrapping(rng)
+        if kind == 'sym':
+            return secret_sym(value or b'w' * 8, E.CryptographicAlgorithm.AES, rng.choice((128, 256)), E.KeyFormatType.RAW, wrapping=w)
+        if kind == 'pub':
+            return secret_public(value or b'w' * 8, E.CryptographicAlgorithm.RSA, 1024, E.KeyFormatType.X_509, wrapping=w)
+        return secret_private(value or b'w' * 8, E.CryptographicAlgorithm.RSA, 1024, E.KeyFormatType.PKCS_8, wrapping=w)
     if kind == 'sym':
         alg = rng.choice(SYM_ALGS + [E.CryptographicAlgorithm.AES] * 4 + list(E.CryptographicAlgorithm)[:12])
         length = rng.choice((n * 8, n * 8, n * 8, 128, 0, 256))
